@@ -57,6 +57,23 @@ def weird_header(rng, size=None, flags=None, good_crc8=True, ftype=6):
     return b"\xde\xad" + h4 + bytes([c8])
 
 
+def short_body_frame(rng, flags=None, nbody=None):
+    """Checksum-valid header whose body is too short for its kind but carries a VALID body checksum where
+    one fits: a first fragment with 0..3 bytes after the CRC16 (no room for the 4-byte command header),
+    bodies of 0 or 1 byte (no room for the CRC16), ACK headers with a length other than 5."""
+    from zigpy_zboss.checksum import CRC8, CRC16
+    flags = rng.choice([0x40, 0xC0, 0x44, 0xC8, 0x00, 0x80, 0x01, 0x11]) if flags is None else flags
+    nbody = rng.randrange(0, 7) if nbody is None else nbody
+    if nbody >= 2:
+        data = rand_bytes(rng, nbody - 2)
+        body = int(CRC16(data).digest()).to_bytes(2, "little") + data
+    else:
+        body = rand_bytes(rng, nbody)
+    size = 5 + len(body)
+    h4 = size.to_bytes(2, "little") + bytes([6, flags])
+    return b"\xde\xad" + h4 + bytes([int(CRC8(h4).digest())]) + body
+
+
 def corrupt(rng, fr):
     r = rng.random()
     b = bytearray(fr)
@@ -91,6 +108,8 @@ def gen_pieces(rng, npieces=None, focus=None):
             out.append(("corrupt", corrupt(rng, valid_frame(rng))))
         elif r < 0.80:
             out.append(("badcrc8-long", weird_header(rng, size=rng.choice([300, 5000, 0x7FFF, 0xFFFF]), flags=0xC0, good_crc8=False)))
+        elif r < 0.84:
+            out.append(("short-body-valid-crc", short_body_frame(rng)))
         elif r < 0.93:
             sz = rng.randrange(0, 14) if rng.random() < 0.7 else rng.randrange(0, 301)
             tail = rand_bytes(rng, rng.randrange(0, 16))
